@@ -79,6 +79,12 @@ func (eng *engine) closeEventLoops() {
 	}
 }
 
+func closeListeners(lns map[int]*listener) {
+	for _, ln := range lns {
+		ln.close()
+	}
+}
+
 func (eng *engine) runEventLoops(ctx context.Context, numEventLoop int) error {
 	var el0 *eventloop
 	lns := eng.listeners
@@ -89,6 +95,7 @@ func (eng *engine) runEventLoops(ctx context.Context, numEventLoop int) error {
 			for _, l := range eng.listeners {
 				ln, err := initListener(l.network, l.address, eng.opts)
 				if err != nil {
+					closeListeners(lns)
 					return err
 				}
 				lns[ln.fd] = ln
@@ -96,6 +103,9 @@ func (eng *engine) runEventLoops(ctx context.Context, numEventLoop int) error {
 		}
 		p, err := netpoll.OpenPoller()
 		if err != nil {
+			if i > 0 {
+				closeListeners(lns) // not owned by any registered loop yet
+			}
 			return err
 		}
 		el := new(eventloop)
@@ -105,12 +115,13 @@ func (eng *engine) runEventLoops(ctx context.Context, numEventLoop int) error {
 		el.buffer = make([]byte, eng.opts.ReadBufferCap)
 		el.connections.init()
 		el.eventHandler = eng.eventHandler
+		// Register the loop first, so that a failure below is cleaned up by closeEventLoops.
+		eng.eventLoops.register(el)
 		for _, ln := range lns {
 			if err = el.poller.AddRead(ln.packPollAttachment(el.accept), false); err != nil {
 				return err
 			}
 		}
-		eng.eventLoops.register(el)
 
 		// Start the ticker.
 		if eng.opts.Ticker && el.idx == 0 {
@@ -150,12 +161,8 @@ func (eng *engine) activateReactors(ctx context.Context, numEventLoop int) error
 		eng.eventLoops.register(el)
 	}
 
-	// Start sub reactors in the background.
-	eng.eventLoops.iterate(func(_ int, el *eventloop) bool {
-		eng.concurrency.Go(el.orbit)
-		return true
-	})
-
+	// Set up the main reactor before any goroutine is started, so that a failure here
+	// leaves nothing running and everything reachable from closeEventLoops.
 	p, err := netpoll.OpenPoller()
 	if err != nil {
 		return err
@@ -166,12 +173,18 @@ func (eng *engine) activateReactors(ctx context.Context, numEventLoop int) error
 	el.engine = eng
 	el.poller = p
 	el.eventHandler = eng.eventHandler
+	eng.ingress = el
 	for _, ln := range eng.listeners {
 		if err = el.poller.AddRead(ln.packPollAttachment(el.accept0), true); err != nil {
 			return err
 		}
 	}
-	eng.ingress = el
+
+	// Start sub reactors in the background.
+	eng.eventLoops.iterate(func(_ int, el *eventloop) bool {
+		eng.concurrency.Go(el.orbit)
+		return true
+	})
 
 	// Start the main reactor in the background.
 	eng.concurrency.Go(el.rotate)
